@@ -79,6 +79,19 @@ CLAIMS.update({
    ref="DESIGN.md section 4 C02"),
 })
 
+CLAIMS.update({
+ "C04": dict(
+   technique="store summaries and clamp-idiom matching (LF engine), call-order and override rules over clang AST",
+   text="Decides: update_target_volume is V_t += dt*growth_rate_ then clamp-below on the type's min_vol_; update_pressure is -K*log(V/V_t) then clamp-above on max_pressure_; apply_internal_forces refreshes geometry, area, volume, target volume, pressure and only then applies forces; is_ready_to_divide is false in the base and volume_ >= division_volume_ in epithelial_cell only; each drawn property is clamped to mean +/- 3 std of its own distribution; removal uses volume_ < min_vol_ after the position update, clears the cells, and the population only grows through cell_divider::run; the initial target volume is V*exp(p0/K) followed by update_pressure.",
+   note="Behaviour over volume trajectories ('never reappears' over histories, NaN/inf of the logarithm) is not decided; clamps are matched as idioms, branch conditions are not interpreted.",
+   ref="DESIGN.md section 4 C04"),
+ "C12": dict(
+   technique="polynomial identities on the per-face / per-node contributions (LF engine), structural matching of accumulations and running extrema",
+   text="Decides exact formula clauses: the volume integrand (and the signed-volume sibling in the orientation check) is the scalar triple product of the face's own nodes, volume = |sum|/6, inside-out cells are flipped through a reference; face area = |cross|/2 and normal = normalised cross product; centroid contribution = (x1+x2+x3)/3*area over used faces, divided by area_; area = sum of used faces' areas; the bounding box keeps per-axis running extrema over used nodes from +/-infinity and returns (min xyz, max xyz); the covariance entries accumulate (p_a-c_a)(p_b-c_b) for the matching axes into a symmetric matrix.",
+   note="Frame independence, independence of the element numbering, the flood-fill orientation repair and the eigen-solver's accuracy are not decided.",
+   ref="DESIGN.md section 4 C12"),
+})
+
 NA_DEFAULT = "checker not finished yet (see DESIGN.md section 4 for the planned clauses)"
 NA = {}
 
